@@ -146,6 +146,9 @@ func SpecStream(i int) byte { panic("abstract spec function") }
 //@   modifies d.offset, pos
 //@   ensures offset: result1 == nil ==> d.offset - old(d.offset) == pos - old(pos)
 //@   ensures unread_same: unread == old(unread)
+//@   loop 1:
+//@     invariant own_buffer: resp != nil && fresh(resp) && (cap(resp.Value) == 0 || fresh(resp.Value))
+//@     invariant sync: d.offset - old(d.offset) == pos - old(pos) && unread == old(unread)
 
 //@ func Decoder.decodeResp
 //@   arith int
